@@ -5,3 +5,4 @@ pub mod interp;
 pub mod obs;
 pub mod program;
 pub mod refdoc;
+pub mod view;
